@@ -228,8 +228,16 @@ func init() {
 			o.JobCfg = jobCfg(3600, 900, 60)
 			o.Faults = &sim.RandomFaults{Pct: 8, Kinds: []sim.FaultKind{sim.F500Before, sim.F409Before, sim.FTimeoutAfter, sim.FCrashBefore, sim.FCrashAfter, sim.F422Before}, R: rand.New(rand.NewSource(o.Seed ^ 0x9)), Until: 250, Crashes: 2, ReadPct: 15}
 			o.InvalidPodFaults = true
-			return simCase{Opt: o, Note: "random faults", Prof: sim.Profile{MinJobs: 1, MaxJobs: 4, Parallel: 60, MaxAttempts: 3, MaxRetryDelay: 6, KillPct: 20, DeletePct: 15, ForeignPct: 20,
-				PendingTimeout: []int64{-1, 12}, TTL: []int64{30, 120}}}
+			prof := sim.Profile{MinJobs: 1, MaxJobs: 4, Parallel: 60, MaxAttempts: 3, MaxRetryDelay: 6, KillPct: 20, DeletePct: 15, ForeignPct: 20,
+				PendingTimeout: []int64{-1, 12}, TTL: []int64{30, 120}}
+			note := "random faults"
+			if i%3 == 0 {
+				// kills and deletions while the Pod cache is far behind the Job cache
+				o.Mode, o.DeepLag = "lag", true
+				prof.KillPct, prof.FutureKill, prof.DeletePct, prof.ForeignPct = 70, 30, 25, 0
+				note = "random faults, kill-heavy, deep cache lag"
+			}
+			return simCase{Opt: o, Note: note, Prof: prof}
 		},
 		NonTrivial: func(w *sim.World, hit *sim.Call) bool {
 			return (hit.Kind == sim.KPod && hit.Verb == "create") || hit.Kind == sim.KJob
